@@ -165,6 +165,26 @@ class PgEnv(Env):
         v = M.deref(st, a[0]).f['user']; return s.ret(st, NONE if v.variant == 'None' else some(sref(payload(v))))
     def p_Config__get_dbname(s, M, st, th, ci, a):
         v = M.deref(st, a[0]).f['dbname']; return s.ret(st, NONE if v.variant == 'None' else some(sref(payload(v))))
+    def str_getter(name):
+        def f(s, M, st, th, ci, a):
+            if 'tokio_postgres' not in ci['text']: return None
+            v = M.deref(st, a[0]).f[name]; return s.ret(st, NONE if v.variant == 'None' else some(sref(payload(v))))
+        return f
+    def val_getter(name, kind):
+        def f(s, M, st, th, ci, a):
+            if 'tokio_postgres' not in ci['text']: return None
+            v = M.deref(st, a[0]).f[name]
+            if kind == 'val': return s.ret(st, v)                       # Copy values (enums, bool, Duration)
+            if kind == 'optref': return s.ret(st, NONE if v.variant == 'None' else some(Ref(st.alloc(payload(v)))))
+            if kind == 'slice': return s.ret(st, Ref(st.alloc(Agg('Vec', list(v)))))
+        return f
+    p_Config__get_password = str_getter('password'); p_Config__get_options = str_getter('options')
+    p_Config__get_application_name = str_getter('application_name')
+    p_Config__get_ssl_mode = val_getter('ssl_mode', 'val'); p_Config__get_keepalives = val_getter('keepalives', 'val')
+    p_Config__get_keepalives_idle = val_getter('keepalives_idle', 'val'); p_Config__get_connect_timeout = val_getter('connect_timeout', 'optref')
+    p_Config__get_target_session_attrs = val_getter('target_session_attrs', 'val'); p_Config__get_channel_binding = val_getter('channel_binding', 'val')
+    p_Config__get_load_balance_hosts = val_getter('load_balance_hosts', 'val')
+    p_Config__get_hostaddrs = val_getter('hostaddrs', 'slice'); p_Config__get_ports = val_getter('ports', 'slice')
     def p_Config__get_hosts(s, M, st, th, ci, a):
         return s.ret(st, Ref(st.alloc(Agg('Vec', [Agg('Host', [Opaque(h[0]), h[1]]) for h in M.deref(st, a[0]).f['hosts']]))))
     def d_PgConfig(s, M, st, th, v): return True
@@ -524,6 +544,17 @@ def run_c18(prog, job):
 
 
 # ====================================================================== concretisation for the native replay
+def _consts(t):
+    seen = set(); out = []; work = [t]
+    while work:
+        x = work.pop()
+        if x.get_id() in seen: continue
+        seen.add(x.get_id())
+        if z3.is_const(x) and x.decl().kind() == z3.Z3_OP_UNINTERPRETED: out.append(x)
+        work.extend(x.children())
+    return out
+
+
 def _nice_model(M, st, extra, sym):
     base = list(st.pc) + [z(e) for e in extra]
     nice = []
@@ -591,7 +622,14 @@ def concretise(W, st, r, pat, url, sym, m):
     elif r[1].variant == 'Err': pred = {'result': payload(r[1]).variant}
     else:
         rec = payload(r[1])
-        def opt(f): return None if rec.f[f].variant == 'None' else _sv(m, payload(rec.f[f]))
+        def opt(f):
+            if rec.f[f].variant == 'None': return None
+            t = payload(rec.f[f])
+            t = t.f[0] if isinstance(t, Agg) else t
+            # a text built by format!() is not predictable (the formatting model returns an unconstrained string): the native
+            # run must then violate the obligation itself - the field must differ from the value the Config sets
+            if z3.is_expr(t) and any(str(d).startswith('formatted_') for d in _consts(t)): return {'formatted': True}
+            return _sv(m, payload(rec.f[f]))
         def num(x): return x.v if isinstance(x, I) else m.eval(x, model_completion=True).as_long()
         ka = rec.f['keepalives']
         pred = {'result': 'Ok', 'user': opt('user'), 'password': opt('password'), 'dbname': opt('dbname'), 'options': opt('options'),
